@@ -44,6 +44,14 @@ def main():
         by_name = {c["qname"].lower(): c for c in cases}
 
         def script(qn, proto, nth, q):
+            if qn.startswith("twin"):
+                # answers that depend on the DO bit of the query the upstream actually received, 0.3 s late
+                pq = dnslib.parse(q)
+                do = bool(pq.opt and (pq.opt["ttl"] & 0x8000))
+                ans = [(qn, 1, 0, bytes([10, 3, 3, 3]))]
+                if do:
+                    ans.append((qn, 46, 0, struct.pack(">HBBIIIH", 1, 8, 3, 0, 2000000000, 1000000000, 1234) + dnslib.enc_name("relay.test") + bytes(32)))
+                return [("reply", dnslib.build_reply(q, answers=ans), 0.3)]
             c = by_name.get(qn)
             if c is None:
                 return [("reply", dnslib.build_reply(q, rcode=3), 0)]
@@ -91,6 +99,34 @@ def main():
 
         with ThreadPoolExecutor(max_workers=32) as ex:
             list(ex.map(one, cases))
+        if prop == "C03":
+            # two clients ask the same question at (nearly) the same time, one with DO set, one without; the upstream's answer
+            # differs (an RRSIG more for DO): each client must get the upstream's reply to ITS query
+            twin_bad = []
+
+            def twin_ask(name, do, delay, out):
+                time.sleep(delay)
+                rs = dnslib.udp_query(("127.0.0.53", 53), dnslib.build_query(rnd_twin.randrange(65536), name, edns=1232, do=do), timeout=8.0)
+                out[do] = dnslib.parse(rs[0][0]) if rs else None
+
+            import random as _random
+            rnd_twin = _random.Random(args["seed"])
+            for k in range(8):
+                name = "twin%d.relay.test" % k
+                out = {}
+                first_do = bool(k % 2)
+                ts = [threading.Thread(target=twin_ask, args=(name, first_do, 0.0, out)), threading.Thread(target=twin_ask, args=(name, not first_do, 0.05, out))]
+                for t in ts:
+                    t.start()
+                for t in ts:
+                    t.join(timeout=15)
+                for do in (False, True):
+                    pr = out.get(do)
+                    types = sorted(t for (_, t, _, _) in pr.answers) if pr else None
+                    want = [1, 46] if do else [1]
+                    if types != want:
+                        twin_bad.append((name, do, types))
+            events.append({"case": -2, "twin_pairs": 8, "twin_bad": twin_bad})
         if prop == "C04":
             # datagrams of 12+ octets with QR=0 that no parser can accept
             import random as _random
